@@ -10,6 +10,7 @@ import (
 	"encoding/json"
 	"fmt"
 	"go/ast"
+	"go/parser"
 	"go/token"
 	"go/types"
 	"os"
@@ -44,6 +45,9 @@ type Prog struct {
 	fileOf  map[*ast.File]*packages.Package
 	NFiles  int
 	overlay map[string][]byte
+
+	lineMaps map[string][]int // rewritten file -> (new line -> original line)
+	Norm     *NormInfo        // what the normalisation pre-pass did (nil: not normalised)
 }
 
 // ReadFile reads a file of the analysed tree (path relative to the repository
@@ -129,6 +133,10 @@ func Load(opts LoadOpts) (*Prog, error) {
 	if err != nil {
 		return nil, fmt.Errorf("go/packages: %w", err)
 	}
+	return buildProg(opts, fset, pkgs)
+}
+
+func buildProg(opts LoadOpts, fset *token.FileSet, pkgs []*packages.Package) (*Prog, error) {
 	p := &Prog{Dir: opts.Dir, GOARCH: opts.GOARCH, Fset: fset, overlay: opts.Overlay,
 		ByPath: map[string]*packages.Package{}, AllTypes: map[string]*types.Package{},
 		fns: map[*types.Func]*Fn{}, varFns: map[string]*Fn{}, parents: map[ast.Node]ast.Node{}, fileOf: map[*ast.File]*packages.Package{}}
@@ -136,9 +144,6 @@ func Load(opts LoadOpts) (*Prog, error) {
 	for _, pkg := range pkgs {
 		if !strings.HasPrefix(pkg.PkgPath, Module) {
 			continue
-		}
-		if opts.Tests && (strings.HasSuffix(pkg.ID, ".test") || strings.Contains(pkg.ID, "_test")) {
-			// test variants are loaded only to assert they type-check
 		}
 		for _, e := range pkg.Errors {
 			errs = append(errs, e.Error())
@@ -189,6 +194,111 @@ func Load(opts LoadOpts) (*Prog, error) {
 	sort.Slice(p.fnList, func(i, j int) bool { return p.fnList[i].Name() < p.fnList[j].Name() })
 	return p, nil
 }
+
+// recheck parses and type-checks the module's packages again, in process, with
+// the given file contents replacing the sources (absolute path -> text).
+// Packages outside the module keep the type information of the first load; no
+// go command runs.
+func (p *Prog) recheck(opts LoadOpts, changed map[string][]byte) (*Prog, error) {
+	fset := token.NewFileSet()
+	inModule := map[string]*packages.Package{}
+	for _, pk := range p.Pkgs {
+		inModule[pk.PkgPath] = pk
+	}
+	done := map[string]*packages.Package{}
+	var firstErr error
+	var check func(old *packages.Package) *packages.Package
+	imp := importerFunc(func(path string) (*types.Package, error) {
+		if old, ok := inModule[path]; ok {
+			np := check(old)
+			if np == nil || np.Types == nil {
+				return nil, fmt.Errorf("cannot re-check %s", path)
+			}
+			return np.Types, nil
+		}
+		if tp := p.AllTypes[path]; tp != nil {
+			return tp, nil
+		}
+		if path == "unsafe" {
+			return types.Unsafe, nil
+		}
+		return nil, fmt.Errorf("package %s was not loaded", path)
+	})
+	check = func(old *packages.Package) *packages.Package {
+		if np, ok := done[old.PkgPath]; ok {
+			return np
+		}
+		np := &packages.Package{ID: old.ID, Name: old.Name, PkgPath: old.PkgPath, Module: old.Module, TypesSizes: old.TypesSizes,
+			GoFiles: old.GoFiles, CompiledGoFiles: old.CompiledGoFiles}
+		done[old.PkgPath] = np
+		var files []*ast.File
+		for _, of := range old.Syntax {
+			name := p.Fset.Position(of.Pos()).Filename
+			var src any
+			if b, ok := changed[name]; ok {
+				src = b
+			} else if b, ok := p.overlay[name]; ok {
+				src = b
+			}
+			f, err := parser.ParseFile(fset, name, src, parser.ParseComments|parser.SkipObjectResolution)
+			if err != nil {
+				np.Errors = append(np.Errors, packages.Error{Msg: err.Error()})
+				if firstErr == nil {
+					firstErr = err
+				}
+				continue
+			}
+			files = append(files, f)
+		}
+		info := &types.Info{
+			Types:      map[ast.Expr]types.TypeAndValue{},
+			Defs:       map[*ast.Ident]types.Object{},
+			Uses:       map[*ast.Ident]types.Object{},
+			Implicits:  map[ast.Node]types.Object{},
+			Instances:  map[*ast.Ident]types.Instance{},
+			Scopes:     map[ast.Node]*types.Scope{},
+			Selections: map[*ast.SelectorExpr]*types.Selection{},
+		}
+		conf := types.Config{Importer: imp, Sizes: old.TypesSizes,
+			Error: func(err error) { np.Errors = append(np.Errors, packages.Error{Msg: err.Error()}) }}
+		if old.Module != nil && old.Module.GoVersion != "" {
+			conf.GoVersion = "go" + old.Module.GoVersion
+		}
+		tp, _ := conf.Check(old.PkgPath, fset, files, info)
+		np.Types, np.TypesInfo, np.Syntax, np.Fset = tp, info, files, fset
+		return np
+	}
+	var pkgs []*packages.Package
+	for _, pk := range p.Pkgs {
+		pkgs = append(pkgs, check(pk))
+	}
+	o2 := opts
+	o2.Dir = p.Dir
+	o2.GOARCH = p.GOARCH
+	ov := map[string][]byte{}
+	for k, v := range p.overlay {
+		ov[k] = v
+	}
+	for k, v := range changed {
+		ov[k] = v
+	}
+	o2.Overlay = ov
+	np, err := buildProg(o2, fset, pkgs)
+	if err != nil {
+		return nil, err
+	}
+	// packages outside the module stay reachable for LookupObj
+	for k, v := range p.AllTypes {
+		if np.AllTypes[k] == nil {
+			np.AllTypes[k] = v
+		}
+	}
+	return np, nil
+}
+
+type importerFunc func(path string) (*types.Package, error)
+
+func (f importerFunc) Import(path string) (*types.Package, error) { return f(path) }
 
 func (p *Prog) indexFile(pkg *packages.Package, f *ast.File) {
 	var stack []ast.Node
@@ -249,7 +359,11 @@ func (p *Prog) Rel(pos token.Pos) string {
 	if err != nil {
 		r = ps.Filename
 	}
-	return fmt.Sprintf("%s:%d", r, ps.Line)
+	line := ps.Line
+	if m := p.lineMaps[ps.Filename]; m != nil && line < len(m) && m[line] > 0 {
+		line = m[line] // position in an expanded helper: report the line of the original source
+	}
+	return fmt.Sprintf("%s:%d", r, line)
 }
 
 // Fn is a source function or method of the module, or a function literal
@@ -264,6 +378,10 @@ type Fn struct {
 	Type *ast.FuncType
 	name string
 	g    *Graph
+
+	defCache   map[*ast.Ident]ast.Expr
+	litAssigns map[types.Object]bool
+	matchDepth int
 }
 
 // Name is the type-qualified name, e.g. "internal/allocator.(*Allocator).Assign".
@@ -322,6 +440,15 @@ func (p *Prog) FnOf(o *types.Func) *Fn {
 // LookupFunc resolves "pkg", "Recv" (may be "" or start with *), "name" in the
 // module; pkg is relative to the module root (e.g. "internal/allocator").
 func (p *Prog) LookupFunc(pkg, recv, name string) *Fn {
+	f := p.lookupFunc(pkg, recv, name)
+	if f != nil {
+		Anchors.addName(f.Name())
+	}
+	Anchors.addIdent(name)
+	return f
+}
+
+func (p *Prog) lookupFunc(pkg, recv, name string) *Fn {
 	pk := p.ByPath[Module+"/"+pkg]
 	if pkg == "" {
 		pk = p.ByPath[Module]
